@@ -21,7 +21,8 @@ RULE = ("random component fonts with anchors x 12 shipped filters (Decompose, De
         "PropagateAnchors, SkipExportGlyphs incl. the empty list, ReverseContourDirection, SortContours, RemoveOverlaps, "
         "CubicToQuadratic, DottedCircle, ExplodeColorLayerGlyphs) x include in {all, list, exclude list, predicate} x both UFO "
         "libraries; each filter object is then reused on a second font and compared with a fresh object; interpolatable "
-        "variants on two masters. Non-trivial = the filter modified at least one glyph.")
+        "variants on two masters. Non-trivial = the filter modified at least one glyph."
+        " Inclusion kinds cycle (all / list / EMPTY list / exclusion / predicate); Transformations with every Origin on fonts whose metrics differ; a nested-first and a nested-last composite in every font.")
 ASSUMPTIONS = []
 F5_SIG = "DottedCircleFilter-writes-source-font"
 F4_SIG = "ExplodeColorLayerGlyphs-writes-source-font"
